@@ -15,3 +15,4 @@ pub mod d3;
 pub mod g4;
 pub mod a2;
 pub mod g3;
+pub mod d5;
